@@ -251,6 +251,43 @@ pub const SUB_SET: Sub<SetCase> = Sub {
     journal: false,
 };
 
+/// large D-sets (many 2-orbits): validity, irredundancy and the disjoint-union law only; the exhaustive
+/// classification of all assignments is not affordable there
+fn check_big(c: &SetCase, obs: &mut Obs) -> Result<(), String> {
+    let ds = &c.0;
+    ensure!(ds.dim == 2 && ds.is_connected() && ds.ops_are_involutions() && ds.commutes(), "harness: case is not a connected complete 2D D-set");
+    let o = Oracle::new(ds);
+    let mut union: BTreeSet<Vec<Vec<usize>>> = BTreeSet::new();
+    let mut total = 0;
+    for (geom, name) in [(Geometries::Spherical, "spherical"), (Geometries::Euclidean, "euclidean"), (Geometries::Hyperbolic, "hyperbolic")] {
+        let got = generated(ds, &o, geom, name)?;
+        let keys: BTreeSet<Vec<Vec<usize>>> = got.iter().map(|g| g.0.clone()).collect();
+        ensure!(keys.len() == got.len(), "{}: two outputs on {} are related by an automorphism of the D-set", name, ds.text());
+        total += got.len();
+        for k in keys {
+            ensure!(union.insert(k), "the three geometry outputs on {} are not disjoint", ds.text());
+        }
+    }
+    let all = generated(ds, &o, Geometries::All, "all")?;
+    SYMBOLS_COMPARED.fetch_add(all.len() as u64, Ordering::Relaxed);
+    let all_keys: BTreeSet<Vec<Vec<usize>>> = all.iter().map(|g| g.0.clone()).collect();
+    ensure!(all_keys.len() == all.len(), "all: two outputs on {} are related by an automorphism of the D-set", ds.text());
+    ensure!(all_keys == union, "the 'all' output on {} ({} symbols) is not the union of the three geometry outputs ({} symbols)", ds.text(), all_keys.len(), union.len());
+    obs.nontrivial(total >= 2);
+    obs.classify(o.reps.len() > 21, "more than 21 orbits");
+    obs.classify(o.reps.len() > 32, "more than 32 orbits");
+    obs.classify(o.autos.len() > 1, "D-set has non-trivial automorphisms");
+    Ok(())
+}
+
+pub const SUB_BIG: Sub<SetCase> = Sub {
+    name: "per_large_dset",
+    rule: "connected complete 2D D-set with 15 to 40 2-orbits (flag sets of prisms, antiprisms, Platonic and Archimedean-like maps from finite universal covers) x the four geometry settings: items valid (on the D-set, complete, degrees >= 3, curvature sign, numbered), pairwise non-isomorphic as symbols and pairwise inequivalent under the D-set's automorphisms, the three geometry outputs disjoint and 'all' their union; non-trivial = at least 2 outputs",
+    check: check_big,
+    panic_discards: &[],
+    journal: false,
+};
+
 pub fn run(ctx: &mut Ctx) {
     let t = ctx.tier;
     ctx.rule = "all connected complete 2D D-sets of the harness's brute-force enumeration up to a size bound (exhaustive) and proptest-generated random renumbered 2D D-sets above it, each crossed with the four geometry settings; oracle enumerates every branching assignment up to 8 with exact rational curvature and own orbifold invariants".into();
@@ -324,6 +361,43 @@ pub fn run(ctx: &mut Ctx) {
         ctx.note(format!("cover-dsets: {} pairwise non-isomorphic D-sets with 16..={} chambers and at most {} orbits ({} of them loopless and orientable: maps on closed orientable surfaces)", nc, max_size, max_orbits, spheres));
         ctx.run_par(&SUB_SET, cases, None);
     }
+    // the same sources with many more orbits: validity and irredundancy only
+    ctx.layer("large-cover-dsets");
+    {
+        use rayon::prelude::*;
+        let mut bases: Vec<DS> = vec![];
+        for n in 1..=3usize {
+            for ds in dsets_of_size(2, n) {
+                bases.extend(assignments(&ds, if n <= 2 { 10 } else { 5 }, 400).0);
+            }
+        }
+        let max_size = t.pick(120usize, 168usize);
+        let found: Vec<DS> = bases
+            .par_iter()
+            .filter_map(|x| {
+                let k = curvature(x);
+                if !k.is_positive() {
+                    return None;
+                }
+                let order = Q::from(4) / k;
+                if !(order.is_integer() && (*order.numer() as usize) * x.size <= max_size) {
+                    return None;
+                }
+                let u = guarded(|| DS::from_dsym(&rust_dsymbols::covers::finite_universal_cover(&x.to_partial()))).ok()?.dset();
+                let n_orb = orbit_reps(&u).len();
+                if u.size >= 48 && u.size <= max_size && u.ops_are_involutions() && u.is_connected() && u.commutes() && n_orb >= 15 && n_orb <= 40 { Some(u) } else { None }
+            })
+            .collect();
+        let mut by_code: BTreeMap<Vec<usize>, DS> = BTreeMap::new();
+        for d in found {
+            by_code.entry(canonical_code(&d, false)).or_insert(d);
+        }
+        let mut cases: Vec<SetCase> = by_code.into_values().map(SetCase).collect();
+        cases.sort_by_key(|c| std::cmp::Reverse(c.0.size));
+        cases.truncate(t.pick(12, 40));
+        ctx.note(format!("large-cover-dsets: {} D-sets with 48..={} chambers and 15..=40 orbits: {:?} (chambers, orbits)", cases.len(), max_size, cases.iter().map(|c| (c.0.size, orbit_reps(&c.0).len())).collect::<Vec<_>>()));
+        ctx.run_par(&SUB_BIG, cases, None);
+    }
     ctx.layer("random");
     ctx.run_prop(
         &SUB_SET,
@@ -340,6 +414,7 @@ fn counters(ctx: &mut Ctx) {
 pub fn replay(ctx: &mut Ctx, sub: &str, case: &Value) -> Option<Result<(), String>> {
     Some(match sub {
         "per_dset" => ctx.run_one(&SUB_SET, &SetCase::decode(case)?),
+        "per_large_dset" => ctx.run_one(&SUB_BIG, &SetCase::decode(case)?),
         _ => return None,
     })
 }
